@@ -90,7 +90,7 @@ int main(int argc, char **argv) {
   return supervise(a, [&](Ctx &c) {
     const int depth = c.args.thorough() ? 10 : 6;
     std::string tag = fmt("%sSplineND<%d>", S == 2 ? "Cubic" : S == 3 ? "Quintic" : "Septic", D);
-    BfsResult r = bfs(c, tag, [] { return std::unique_ptr<World>(new World()); }, depth);
+    BfsResult r = bfs(c, tag, [] { return std::unique_ptr<World>(new World()); }, depth, c.args.thorough() ? 4 : 3);
     note_bfs(c, tag, r, depth);
   });
 }
